@@ -74,7 +74,7 @@ class ClaimsClass:
 
 LOOK = {"MISSING": lambda: MISSING, "None": lambda: None, "False": lambda: False, "zero": lambda: 0,
         "empty_str": lambda: "", "empty_tuple": lambda: (), "always_equal": AlwaysEqual, "other_state": Holder,
-        "claims_class": ClaimsClass}
+        "claims_class": ClaimsClass, "forged": lambda: object.__new__(Missing)}
 SENTINEL = object()
 BASE = dict(fresh=0, ok="ok", eq=(False, False), pred=("none", "none", "none"), attrs="none")
 
